@@ -88,6 +88,7 @@ type Engine struct {
 	Trace     bool
 	IfaceSpec map[string]*contract.Func // "pkg.Iface.Method" -> trusted contract
 	pure      int
+	constGlobals map[*ssa.Global]Value
 	TypeInvs  map[string]*contract.Pred
 	textCache map[token.Pos]string
 }
@@ -120,7 +121,7 @@ type loopInfo struct {
 func NewEngine(prog *ssa.Program, pkgs []*packages.Package) *Engine {
 	e := &Engine{Prog: prog, Pkgs: pkgs, SSAPkgs: map[string]*ssa.Package{}, Contracts: map[*ssa.Function]*contract.Func{},
 		ByKey: map[string]*contract.Func{}, Preds: map[string]*contract.Pred{}, noteSet: map[string]bool{}, constName: map[string]string{},
-		TypeInvs: map[string]*contract.Pred{}, textCache: map[token.Pos]string{}, MaxPaths: 20000, IfaceSpec: map[string]*contract.Func{}, LemmaPkg: map[*contract.Lemma]string{}}
+		TypeInvs: map[string]*contract.Pred{}, constGlobals: map[*ssa.Global]Value{}, textCache: map[token.Pos]string{}, MaxPaths: 20000, IfaceSpec: map[string]*contract.Func{}, LemmaPkg: map[*contract.Lemma]string{}}
 	for _, p := range prog.AllPackages() {
 		e.SSAPkgs[p.Pkg.Path()] = p
 	}
@@ -233,6 +234,9 @@ func (e *Engine) AddContracts(f *contract.File) error {
 			fc.Pkg = pkgPath
 		}
 		fn := e.LookupFunc(pkgPath, key)
+		if fn == nil && fc.Trusted && e.SSAPkgs[pkgPath] == nil {
+			continue // assumed contract of a package that is not loaded in this run
+		}
 		if fn == nil {
 			return fmt.Errorf("%s:%d: contract for unknown function %q in %s", fc.File, fc.Line, key, pkgPath)
 		}
